@@ -176,6 +176,9 @@ def bound_field(c, horizon):
 
 def make_adaptive(rng, c, strats=("filter", "fixedpoint")):
     bound_field(c, Fr(3, 4))
+    if rng.random() < 0.6:
+        c["init_mode"] = "exact"
+        c["std"] = [Fr(0)] * (c["q"] + 1) if c["kind"] == "iso" else [[Fr(0)] * c["d"] for _ in range(c["q"] + 1)]
     if c["strat"] not in strats:
         c["strat"] = rng.choice(strats)
     c["damp"] = Fr(0)
@@ -204,7 +207,9 @@ def describe(c):
 # inputs are perturbed by rounding-size amounts (relative 2^-48 .. 2^-46, random signs); B must agree with A up to
 # ATOL_ADAPTIVE relative + KTWIN * |A - A'| in the same metric.  Fixed-grid comparisons use the plain tight tolerance.
 KTWIN = 50.0
-RTOL_ADAPTIVE = 1e-6
+# exact initial conditions keep the controller away from the tiny-step regime in which the error estimate (a residual
+# u' - f(u)) is dominated by cancellation; with a non-zero initial covariance only 1e-4 is meaningful
+RTOL_ADAPTIVE = {True: 1e-7, False: 1e-4}
 
 
 def twin_of(rng, c):
@@ -255,11 +260,20 @@ def sd_from_cov(P):
     return np.maximum(sd, 1e-7 * max(float(sd.max()) if sd.size else 0.0, 1e-300))
 
 
-def allowance(routine, base, noise):
+def allowance(c, base, noise):
     """tolerance for a deviation in one of the metrics above"""
-    if routine == "fixed_grid":
+    if c["routine"] == "fixed_grid":
         return base
-    return RTOL_ADAPTIVE + KTWIN * noise
+    return RTOL_ADAPTIVE[c.get("init_mode", "exact") == "exact"] + KTWIN * noise
+
+
+def steps_differ_on_boundary(ck, c, steps_a, twin_steps):
+    """A and B report different num_steps.  If the rounding-size twin of A ALSO takes a different number of steps, the
+    run sits on a step-acceptance boundary (thousands of steps, an error norm within rounding of 1): not a defect."""
+    if c["routine"] == "adaptive" and twin_steps is not None and twin_steps != steps_a:
+        ck.hist.setdefault("adaptive_runs_on_an_acceptance_boundary(skipped)", {"n": 0})["n"] += 1
+        return True
+    return False
 
 
 def note_noise(ck, what, noise):
@@ -321,7 +335,8 @@ def pytree_check(ck, n):
             ck.report("C15.pytree.flat", f"{describe(c)}: flat problem: {fl['structure_problems'][0]}", rep)
             continue
         if tr["num_steps"] != fl["num_steps"]:
-            ck.report(sig, f"{describe(c)}: num_steps {tr['num_steps']} (pytree) vs {fl['num_steps']} (flat)", rep)
+            if not steps_differ_on_boundary(ck, c, fl["num_steps"], None if (rt is None or "error" in rt) else rt["flat"]["num_steps"]):
+                ck.report(sig, f"{describe(c)}: num_steps {tr['num_steps']} (pytree) vs {fl['num_steps']} (flat)", rep)
             continue
         sdev = np.asarray(fl["std"], dtype=float)
         if c["kind"] == "iso":
@@ -341,7 +356,7 @@ def pytree_check(ck, n):
                 if what == "mean":
                     note_noise(ck, "pytree", noise)
             track(f"pytree {c['routine']} {what}", w)
-            if not w <= allowance(c["routine"], 1e-12, noise):
+            if not w <= allowance(c, 1e-12, noise):
                 where = ""
                 a_, b_ = np.asarray(a, dtype=float), np.asarray(b, dtype=float)
                 if a_.shape == b_.shape:
@@ -386,7 +401,8 @@ def compare_dense_layout(ck, c, sig, rep, ra, rb, rt, what_a, what_b, base_m, ba
             ck.report(sig, f"{describe(c)}: implementation raised {r['error']} ({who})", dict(rep, tb=r.get("tb")))
             return
     if ra["num_steps"] != rb["num_steps"]:
-        ck.report(sig, f"{describe(c)}: num_steps {ra['num_steps']} ({what_a}) vs {rb['num_steps']} ({what_b})", rep)
+        if not steps_differ_on_boundary(ck, c, ra["num_steps"], None if (rt is None or "error" in rt) else rt["num_steps"]):
+            ck.report(sig, f"{describe(c)}: num_steps {ra['num_steps']} ({what_a}) vs {rb['num_steps']} ({what_b})", rep)
         return
     ma, Pa, mb, Pb = (np.asarray(x, dtype=float) for x in (ra["mean"], ra["cov"], rb["mean"], rb["cov"]))
     fa = bool(np.all(np.isfinite(ma)) and np.all(np.isfinite(Pa)))
@@ -418,13 +434,13 @@ def compare_dense_layout(ck, c, sig, rep, ra, rb, rt, what_a, what_b, base_m, ba
     track(f"{label} {c['routine']} mean", wm)
     track(f"{label} {c['routine']} cov", wP)
     track(f"{label} {c['routine']} scale", ws)
-    if not wm <= allowance(c["routine"], base_m, nm):
+    if not wm <= allowance(c, base_m, nm):
         t, i = np.unravel_index(np.argmax(np.abs(ma - mb) / (np.abs(ma) + sd)), ma.shape)
         ck.report(sig, f"{describe(c)}: mean at t[{t}] entry {i}: {ma[t, i]!r} ({what_a}) vs {mb[t, i]!r} ({what_b}); relative {wm:.3g}, twin noise {nm:.3g}", rep)
-    elif not wP <= allowance(c["routine"], base_P, nP):
+    elif not wP <= allowance(c, base_P, nP):
         t, i, j = np.unravel_index(np.argmax(np.abs(Pa - Pb) / (sd[:, :, None] * sd[:, None, :] + np.abs(Pa))), Pa.shape)
         ck.report(sig, f"{describe(c)}: cov at t[{t}] ({i},{j}): {Pa[t, i, j]!r} ({what_a}) vs {Pb[t, i, j]!r} ({what_b}); relative {wP:.3g}, twin noise {nP:.3g}", rep)
-    elif not ws <= allowance(c["routine"], 1e-8, ns):
+    elif not ws <= allowance(c, 1e-8, ns):
         ck.report(sig, f"{describe(c)}: output scales {sa.tolist()} ({what_a}) vs {sb.tolist()} ({what_b})", rep)
 
 
@@ -562,11 +578,13 @@ def vmap_check(ck, n):
         bt = r["batched"]
         for i, s in enumerate(r["singles"]):
             bad = None
-            if np.asarray(bt["num_steps"])[i].tolist() != s["num_steps"]:
-                bad = f"num_steps {np.asarray(bt['num_steps'])[i].tolist()} (vmap) vs {s['num_steps']} (single)"
             tw = None
             if rt is not None and "error" not in rt and rt["singles"][i]["num_steps"] == s["num_steps"]:
                 tw = rt["singles"][i]
+            if np.asarray(bt["num_steps"])[i].tolist() != s["num_steps"]:
+                if steps_differ_on_boundary(ck, c, s["num_steps"], None if (rt is None or "error" in rt) else rt["singles"][i]["num_steps"]):
+                    continue
+                bad = f"num_steps {np.asarray(bt['num_steps'])[i].tolist()} (vmap) vs {s['num_steps']} (single)"
             sdev = np.asarray(s["std"], dtype=float)
             if c["kind"] == "iso":
                 sdev = sdev[..., None]
@@ -589,7 +607,7 @@ def vmap_check(ck, n):
                     if what == "mean":
                         note_noise(ck, "vmap", noise)
                 track(f"vmap {c['routine']} {what}", w)
-                if not w <= allowance(c["routine"], 1e-10 if what == "mean" else 1e-8, noise):
+                if not w <= allowance(c, 1e-10 if what == "mean" else 1e-8, noise):
                     idx = np.unravel_index(np.nanargmax(np.abs(a - b)), a.shape)
                     bad = f"u.{what} differs (relative {w:.3g}, twin noise {noise:.3g}) at {tuple(int(x) for x in idx)}: single {a[idx]!r} vs vmap {b[idx]!r}"
             if bad:
@@ -638,7 +656,7 @@ def main():
               "leading axis = len(grid)/len(save_at); (ii) permutation of 2..4 components incl. per-dimension base scales: solution, covariance and "
               "per-dimension scales permuted (1e-10); (iii) jit vs jax.disable_jit() (1e-12 of |mean|+sd, 1e-9 of sd_i sd_j; identical num_steps); "
               "(iv) jax.vmap over initial values and a stiffness parameter vs one at a time (means 1e-10 of |mean|+sd, std/scales 1e-8, NaN check, identical num_steps); adaptive batches "
-              "whose step counts differ by >= 5x are the non-trivial ones. Adaptive comparisons: identical num_steps, values within 1e-6 + 50x the "
+              "whose step counts differ by >= 5x are the non-trivial ones. Adaptive comparisons: identical num_steps, values within 1e-7 (exact initial condition; 1e-4 otherwise) + 50x the "
               "deviation of a rounding-size-perturbed twin run (conditioning of the adaptive solve); non-trivial: all others; distinct by full input",
               assumptions=lib.TRUSTED_BASE + ["C15 proof part is PARTIAL: jit and vmap equivalence are runtime properties of JAX/XLA that no Gallina model exhibits; "
                                                "they are covered by the correspondence harness only"])
